@@ -343,7 +343,7 @@ PROPS = {
         ],
         "not_covered": [
             "the thread, the channel (acceptance order = receive order), the loop header `for event in receiver`, sync_all at the end",
-            "LogFile::create's body (file naming, create_new), the start-up sequence of start_writer_thread before the loop",
+            "LogFile::create's body beyond its naming statement (create_new, the retry loop); of the start-up sequence of start_writer_thread the path handling and the directory scan (the statements after it are the region region_startup)",
             "PrefixFileSet::new (directory scan with Path::starts_with; files of earlier runs); behaviour across restarts",
             "panics caused by failing I/O (disk full): the writer thread ends",
         ],
